@@ -3,9 +3,16 @@
    disturbing the state; the page a page-granularity seek lands on is the LAST
    page of the link in the search range whose granule position is set and below
    the target (so: at or before the target, and no page boundary lies between
-   the landing point and the target); link selection.  Exact landing of the
-   sample-accurate seek for every target is established per run by the tie. *)
-From VV Require Import Blocking VFile VFile_lemmas VFileDemo.
+   the landing point and the target); link selection; a successful page seek
+   (not through the continued-packet fallback) reports a position inside the
+   selected link and at or before the target, for ANY page table; the
+   sample-accurate seek reports EXACTLY the target whenever the executable
+   hypotheses seek_hyps hold (intact run from the landing point reaching the
+   target, full rate; Seek_lemmas.v).  Exact landing for every target of small
+   chained files, time seeks and end-of-file behaviour are established per run. *)
+From VV Require Import Blocking VFile VFile_lemmas VFileDemo Sync_lemmas Seek_lemmas.
+From Coq Require Import ZArith List.
+Import ListNotations.
 Local Open Scope Z_scope.
 
 Theorem C08_out_of_range_rejected_unchanged :
@@ -44,3 +51,23 @@ Example C08_nonvacuous :
   let l := {| li_serial := 1; li_bs0 := 64; li_bs1 := 512; li_off := 0; li_dataoff := 158; li_end := 218; li_init := 0; li_len := 300 |} in
   exists pg rest, best_page (firstn 4 demo_pages) l 200 None = Some (pg :: rest) /\ pg_gran pg = 176.
 Proof. eexists _, _. vm_compute. split; reflexivity. Qed.
+
+(* any page table: a page seek that succeeds lands inside the selected link, at or before the target *)
+Theorem C08_page_seek_lands_at_or_before_target :
+  forall s pos s1,
+    pcm_seek_page s pos = (0, s1) -> fallback s pos = false -> OPENED <= v_rs s <= INITSET ->
+    base_of s1 (v_link s1) <= v_pcm s1 <= pos.
+Proof. intros s pos s1 H1 H2 H3. destruct (page_seek_facts s pos s1 H1 H2 H3) as (_ & _ & _ & H). exact H. Qed.
+Print Assumptions C08_page_seek_lands_at_or_before_target.
+
+(* the sample-accurate seek lands exactly on the target (hypotheses: one executable test) *)
+Theorem C08_sample_seek_lands_exactly_on_target :
+  forall s pos, seek_hyps s pos = true ->
+    fst (pcm_seek s pos) = 0 /\ v_pcm (snd (pcm_seek s pos)) = pos.
+Proof. intros s pos H. destruct (pcm_seek_checked s pos H) as (A & B & _). split; assumption. Qed.
+Print Assumptions C08_sample_seek_lands_exactly_on_target.
+
+(* non-vacuity: every target of the demo link up to the last page *)
+Example C08_exact_landing_nonvacuous :
+  forallb (fun k => seek_hyps demo2 (Z.of_nat k) && (v_pcm (snd (pcm_seek demo2 (Z.of_nat k))) =? Z.of_nat k)) (seq 0 673) = true.
+Proof. vm_compute. reflexivity. Qed.
